@@ -8,39 +8,55 @@ Import ListNotations.
 Close Scope Z_scope.
 Open Scope nat_scope.
 
-(** [idle_converged]: for all programs, all histories of writes interleaved with partial executor
-    progress, and all choices of which ready task is polled next: whenever the run queue is empty
-    (and no task was found spinning), every live effect that did not miss a notification while
-    paused (documented as not replayed) has run, has no notification or dirty flag pending, its
-    last run's log shows the current value of everything it tracked, and every memo it tracked
-    is Clean with a consistent cone.
-    Partial: effects whose bodies write signals are not covered ([pure_effects]); the
-    self-feeding ones among them are the open finding F-C02-d. *)
-Theorem C02_idle_converged_partial :
-  forall p, wf_prog p -> pure_effects p ->
+(** [idle_converged]: for all programs (effects over signals and memos, effects and watch handlers
+    that write signals), all histories of writes interleaved with partial executor progress, and
+    all choices of which ready task is polled next: whenever the run queue is empty (and the
+    case was not cut off as diverging), every live effect that did not miss a notification
+    while paused (documented as not replayed) has run, has no notification or dirty flag
+    pending, its last run's log shows the current value of everything it tracked, and every
+    memo it tracked is Clean with a consistent cone.
+    Known class excluded: [self_feeding p] — some effect writes a signal of its own static cone
+    (finding F-C02-d, open; refuted for that class by [C02_self_feeding_refuted] below).
+    Not modelled: effects created by other effects at run time. *)
+Theorem C02_idle_converged_except_known :
+  forall p, wf_prog p -> ~ self_feeding p ->
   forall ops e, wf_ops p ops -> let s := run_fixed p ops in
   ready s = [] -> halted s = false -> effb p e = true ->
   ealive (getn s e) = true -> emissed (getn s e) = false ->
   EffectConverged p s e.
-Proof. exact idle_converged_all. Qed.
-Print Assumptions C02_idle_converged_partial.
+Proof. exact idle_converged_except_known. Qed.
+Print Assumptions C02_idle_converged_except_known.
+
+(** the known class is not empty and contains the witness program of F-C02-d; a program with
+    writing effects outside the class (a relay) converges *)
+Theorem C02_known_class_witness : self_feeding p_self.
+Proof. exact p_self_is_self_feeding. Qed.
+Print Assumptions C02_known_class_witness.
+
+Theorem C02_relay_converges :
+  let s := run_fixed p_relay ops_relay in
+  ready s = [] /\ halted s = false /\ sval (getn s 1) = 6%Z /\
+  last_log s 4 = [(3, 12%Z, true)] /\ last_log s 2 = [(0, 5%Z, true)].
+Proof. exact relay_converges. Qed.
+Print Assumptions C02_relay_converges.
 
 (** between operations no task is unspawned or in the middle of a poll *)
 Theorem C02_tasks_at_rest_between_operations :
-  forall p, wf_prog p -> pure_effects p ->
+  forall p, wf_prog p -> no_self_feed p ->
   forall ops, wf_ops p ops ->
   halted (run_fixed p ops) = true \/
   forall e, effb p e = true -> epoll (getn (run_fixed p ops) e) = false.
 Proof. exact reachable_at_rest. Qed.
 Print Assumptions C02_tasks_at_rest_between_operations.
 
-(** [no_glitch_in_run]: every value read during a run (of an effect or a memo body) is, at that
-    moment, the cached value of a Clean memo whose whole tracked cone is current, or the
-    signal's present value *)
+(** [no_glitch_in_run]: every value read during a run (of an effect or a memo body; [CtxDep]: the
+    running body statically mentions what it reads) is, at that moment, the cached value of a
+    Clean memo whose whole tracked cone is current, or the signal's present value *)
 Theorem C02_no_glitch_in_run :
   forall p, wf_prog p ->
   forall m c j s stk t s' v,
   Inv p stk t s -> ctx_ok stk c -> TopOK c s -> j < t -> j < length p -> effb p j = false ->
+  CtxDep p c j ->
   read_any p m c j s = (s', v) ->
   Inv p stk t s' /\
   (memob p j = true -> cache (getn s' j) = Some v /\ ConsistentM p s' j) /\
